@@ -36,6 +36,10 @@
 //
 //	store/compute: <status>/<link hex | ->      load: <status>/<node dump | ->/<x raw hex | ->
 //	#<key>=<block>,...  (sorted)
+//	R:ok | R:<node|raw>@<slot>><slot>,...   every node returned by Load / Fill / LoadPlusRaw and every
+//	    byte slice returned by LoadRaw / LoadPlusRaw is RETAINED (not copied) and dumped again after
+//	    later loads and at the end of the history: node@3>7 = the node loaded by op 3 no longer reads
+//	    as it did, first noticed after op 7
 //	status = ok | err.<class> | panic
 package main
 
@@ -219,11 +223,63 @@ func loadObs(status string, n datamodel.Node, raw []byte, rawReturned bool) stri
 }
 
 // runner executes ops one at a time against the real code, collecting observations and tables.
+type kept struct {
+	slot    int
+	node    datamodel.Node
+	raw     []byte // the very slice the library returned
+	hasRaw  bool
+	nodeWas string
+	rawWas  string
+	done    bool // a change was already reported
+}
+
 type runner struct {
-	w     *world
-	tab   *lib.LkTables
-	obs   []string
-	links []string
+	w       *world
+	tab     *lib.LkTables
+	obs     []string
+	links   []string
+	kept    []*kept
+	changed []string
+	cur     int // slot of the operation in progress
+}
+
+// retain keeps what a load handed out, with its dump at that moment.
+func (rn *runner) retain(n datamodel.Node, raw []byte, hasRaw bool) {
+	k := &kept{slot: rn.cur, node: n, raw: raw, hasRaw: hasRaw}
+	if n != nil {
+		k.nodeWas = lib.Dump(n)
+	}
+	if hasRaw {
+		k.rawWas = string(raw)
+	}
+	rn.kept = append(rn.kept, k)
+}
+
+// recheck dumps retained nodes / slices again (the last few after every load, all at the end).
+func (rn *runner) recheck(all bool) {
+	from := 0
+	if !all && len(rn.kept) > 8 {
+		from = len(rn.kept) - 8
+	}
+	for _, k := range rn.kept[from:] {
+		if k.done {
+			continue
+		}
+		if k.node != nil {
+			now := ""
+			if err := lib.Safely(func() error { now = lib.Dump(k.node); return nil }); err != nil {
+				now = "!panic"
+			}
+			if now != k.nodeWas {
+				rn.changed = append(rn.changed, fmt.Sprintf("node@%d>%d", k.slot, rn.cur))
+				k.done = true
+			}
+		}
+		if k.hasRaw && string(k.raw) != k.rawWas {
+			rn.changed = append(rn.changed, fmt.Sprintf("raw@%d>%d", k.slot, rn.cur))
+			k.done = true
+		}
+	}
 }
 
 func newRunner(kind string, trusted bool, reg *lib.LkReg) *runner {
@@ -319,6 +375,10 @@ func (rn *runner) exec(o *op, lsys *linking.LinkSystem) string {
 		if lib.IsPanic(err) {
 			n, raw, rawReturned = nil, nil, false
 		}
+		if n != nil || rawReturned {
+			rn.recheck(false) // before the new arrival joins: has this load disturbed earlier ones?
+			rn.retain(n, raw, rawReturned)
+		}
 		return loadObs(lib.LkErrClass(err, "decode"), n, raw, rawReturned)
 	}
 	return "badop"
@@ -332,6 +392,9 @@ func (rn *runner) do(o *op) {
 		rn.obs = append(rn.obs, "notrun")
 		inner, sys := o.inner, o.sys
 		rn.w.hook = func() {
+			outerSlot := rn.cur
+			rn.cur = slot
+			defer func() { rn.cur = outerSlot }()
 			ls := &rn.w.lsys
 			if sys == 2 {
 				ls = &rn.w.lsys2
@@ -342,6 +405,7 @@ func (rn *runner) do(o *op) {
 		}
 		return
 	}
+	rn.cur = len(rn.obs)
 	r := rn.exec(o, &rn.w.lsys)
 	rn.w.hook = nil // an opener that was never reached: the nested operation did not run
 	rn.obs = append(rn.obs, r)
@@ -355,7 +419,13 @@ func (rn *runner) finish() (string, string) {
 		ents = append(ents, lib.Hex(k)+"="+lib.Hex(string(b)))
 	}
 	sort.Strings(ents)
-	obs := append(append([]string{}, rn.obs...), "#"+strings.Join(ents, ","))
+	rn.cur = len(rn.obs)
+	rn.recheck(true)
+	ret := "R:ok"
+	if len(rn.changed) > 0 {
+		ret = "R:" + strings.Join(rn.changed, ",")
+	}
+	obs := append(append([]string{}, rn.obs...), "#"+strings.Join(ents, ","), ret)
 	return strings.Join(obs, ";"), rn.tab.Text()
 }
 
@@ -603,9 +673,63 @@ func genHistory(r *lib.Rng, maxOps int) (string, bool, *lib.LkReg, []*op) {
 		ops = append(ops, o)
 		live.do(o)
 	}
+	// rawrun: several raw-codec blocks of different sizes (0, 1, small, 4 KiB+) stored and then loaded
+	// in a row through every load function, longer before shorter and back: a loaded bytes node (or
+	// returned slice) that shares memory with something a later load reuses would change
+	rawrun := func() {
+		var cands []uint64
+		for _, c := range codes {
+			if reg.Enc[c] == lib.LkRaw && reg.Dec[c] == lib.LkRaw {
+				cands = append(cands, c)
+			}
+		}
+		if len(cands) == 0 {
+			return
+		}
+		code := cands[r.Intn(len(cands))]
+		p := lib.LkProto{Version: 1, Codec: code, MhType: []uint64{0x12, 0x13, 0x00}[r.Intn(3)], MhLen: -1}
+		sizes := []int{0, 1, 2, 7, 31, 32, 33, 100, 500}
+		big := []int{4096, 4097, 5000}
+		var mine []string
+		cnt := 3 + r.Intn(4)
+		for i := 0; i < cnt; i++ {
+			n := sizes[r.Intn(len(sizes))]
+			if i == 0 && r.Intn(3) == 0 && p.MhType != 0 {
+				n = big[r.Intn(len(big))]
+			}
+			b := make([]byte, n)
+			fill := byte('A' + r.Intn(26))
+			for j := range b {
+				b[j] = fill + byte(j%3)
+			}
+			before := len(live.links)
+			o := &op{kind: 'S', proto: p, holder: "basic", val: lib.Bytes(string(b))}
+			ops = append(ops, o)
+			live.do(o)
+			if len(live.links) > before {
+				mine = append(mine, live.links[len(live.links)-1])
+			}
+		}
+		for round := 0; round < 2 && len(mine) > 0; round++ {
+			form := "lfpr"[r.Intn(4)]
+			for _, i := range r.Perm(len(mine)) {
+				f := form
+				if r.Intn(3) == 0 {
+					f = "lfpr"[r.Intn(4)]
+				}
+				o := &op{kind: 'G', form: f, link: mine[i]}
+				ops = append(ops, o)
+				live.do(o)
+			}
+		}
+	}
 	for len(ops) < nops {
 		if r.Intn(14) == 0 {
 			typed()
+			continue
+		}
+		if r.Intn(16) == 0 {
+			rawrun()
 			continue
 		}
 		switch k := r.Intn(20); {
@@ -843,6 +967,26 @@ func main() {
 		}
 	}
 
+	// raw blocks of descending and ascending sizes loaded in a row through each load function; what
+	// every load returned is retained and read again at the end
+	for _, kind := range []string{"mem", "cid"} {
+		for _, trusted := range []bool{false, true} {
+			for _, form := range "lfpr" {
+				p := lib.LkProto{Version: 1, Codec: lib.LkRaw, MhType: 0x12, MhLen: -1}
+				var ops []*op
+				for _, n := range []int{4100, 64, 64, 32, 1, 0, 33, 5000} {
+					ops = append(ops, &op{kind: 'S', proto: p, holder: "basic", val: lib.Bytes(strings.Repeat(string(rune('a'+n%26)), n))})
+				}
+				_, _, ls := runHistory(kind, trusted, G, ops)
+				for rep := 0; rep < 2; rep++ {
+					for _, l := range uniq(ls) {
+						ops = append(ops, &op{kind: 'G', form: byte(form), link: l})
+					}
+				}
+				emit(out, next("w"), kind, trusted, G, ops)
+			}
+		}
+	}
 	// schema-typed holders: every holder x codec, typed ComputeLink / Store / basicnode ComputeLink,
 	// loads into the typed prototype (Load, Fill, LoadPlusRaw) and into Prototype.Any
 	crng := lib.NewRng(7)
